@@ -953,9 +953,18 @@ pub fn oracle_c13(ctors: &[Ctor]) -> Verdict {
         }
     }
     // total calls of a full traversal (open + iterate + random access)
+    // "yields THAT error": the injected error's kind comes back inside Error::IoError
+    let show_k = |e: &Error| -> String {
+        match e {
+            Error::IoError(io) => format!("io:{:?}", io.kind()),
+            other => show_err(other),
+        }
+    };
+    let kinds = [std::io::ErrorKind::Other, std::io::ErrorKind::InvalidData, std::io::ErrorKind::UnexpectedEof, std::io::ErrorKind::TimedOut, std::io::ErrorKind::InvalidInput, std::io::ErrorKind::PermissionDenied, std::io::ErrorKind::BrokenPipe];
     let probe = |fail_at: Option<usize>| -> (Result<Vec<Result<SV, String>>, String>, usize, bool) {
         let mut s = Src::new(shp.clone());
         s.fail_at = fail_at;
+        s.fail_kind = kinds[fail_at.unwrap_or(0) % kinds.len()];
         let calls = std::rc::Rc::new(std::cell::Cell::new((0usize, false)));
         let c2 = calls.clone();
         let n = shapes.len();
@@ -963,13 +972,13 @@ pub fn oracle_c13(ctors: &[Ctor]) -> Verdict {
         let r = catch_unwind(AssertUnwindSafe(move || {
             let mut r = match ShapeReader::with_shx(s, Cursor::new(shx2)) {
                 Ok(r) => r,
-                Err(e) => return Err(format!("open err {}", show_err(&e))),
+                Err(e) => return Err(format!("open err {}", show_k(&e))),
             };
-            let mut v: Vec<Result<SV, String>> = r.iter_shapes().map(|i| i.map(|s| s.to_sv()).map_err(|e| show_err(&e))).collect();
+            let mut v: Vec<Result<SV, String>> = r.iter_shapes().map(|i| i.map(|s| s.to_sv()).map_err(|e| show_k(&e))).collect();
             for i in (0..n).rev() {
                 v.push(match r.read_nth_shape(i) {
                     Some(Ok(s)) => Ok(s.to_sv()),
-                    Some(Err(e)) => Err(show_err(&e)),
+                    Some(Err(e)) => Err(show_k(&e)),
                     None => Err("none".into()),
                 });
             }
@@ -1011,14 +1020,15 @@ pub fn oracle_c13(ctors: &[Ctor]) -> Verdict {
     };
     for k in 0..total_calls {
         let (got, _, _) = probe(Some(k));
+        let want = format!("io:{:?}", kinds[k % kinds.len()]);
         match got {
-            Err(e) if e == "open err io" => {}
+            Err(e) if e == format!("open err {}", want) => {}
             Err(e) => return Verdict::fail(if e.starts_with("panic") { "source-fault-panic" } else { "source-fault-open" }, format!("source failing at call {}: {}", k, e)),
             Ok(v) => {
                 // exactly one call saw the failure: it must report an I/O error; every Ok item must
                 // be the genuine shape at that position
-                if !v.iter().any(|i| matches!(i, Err(e) if e == "io")) {
-                    return Verdict::fail("source-fault-swallowed", format!("source failing at call {}: no call reported an I/O error", k));
+                if !v.iter().any(|i| matches!(i, Err(e) if *e == want)) {
+                    return Verdict::fail("source-fault-swallowed", format!("source failing at call {} with an error of kind {}: no call reported that error (errors reported: {:?})", k, &want[3..], v.iter().filter_map(|i| i.as_ref().err()).collect::<Vec<_>>()));
                 }
                 for (g, h) in v.iter().zip(healthy.iter()) {
                     if let Ok(g) = g {
@@ -1167,6 +1177,9 @@ pub fn cases_rhist(tier: &str, rng: &mut Rng, stats: &mut Stats, out: &mut Out) 
             x[24..28].copy_from_slice(&xt.to_be_bytes());
             files.push((f, x, "generic".into()));
         }
+        // the same polylines stored in reverse physical order (an edited dataset): located by the index
+        let (pf, px) = crate::round4::permuted_polylines(n);
+        files.push((pf, px, "Polyline".into()));
     }
     let alphabet: Vec<ROp> = vec![ROp::It(0), ROp::It(1), ROp::It(2), ROp::It(99), ROp::Nth(0), ROp::Nth(2), ROp::Nth(4), ROp::Seek(0), ROp::Seek(2), ROp::Seek(4), ROp::Seek(5), ROp::Count, ROp::Hint, ROp::Nth(3), ROp::Seek(3), ROp::Seek(1)];
     let core = 12; // the first `core` symbols are enumerated exhaustively
@@ -1279,7 +1292,18 @@ pub fn oracle_scenario(prop: &str, a: &[String]) -> Option<Verdict> {
             let v = u32::from_str_radix(a.get(2)?, 16).ok()?;
             Some(crate::round3::oracle_header_code_any_version(code, v.to_be_bytes()))
         }
-        ("C15", Some("reader-pairs-noshx")) => Some(crate_dbf::oracle_c15_pairs_noshx(a.get(1)?, a.get(2)?.parse().ok()?, a.get(3)?.parse().ok()?)),
+        (_, Some("panic-drop")) => Some(crate::round4::oracle_panic_drop(a.get(1)?.parse().ok()?)),
+        (_, Some("reused-destinations")) => Some(crate::round4::oracle_reused_destinations(a.get(1)?.parse().ok()?, a.get(2)?.parse().ok()?)),
+        (_, Some("read-vs-readas")) => Some(crate::round4::oracle_read_vs_readas()),
+        (_, Some("write-shapes-rejected")) => Some(crate::round4::oracle_write_shapes_rejected(a.get(1)?.parse().ok()?)),
+        (_, Some("gap-chunked")) => Some(crate::round4::oracle_gap_chunked(a.get(1)?.parse().ok()?)),
+        (_, Some("empty-index")) => Some(crate::round4::oracle_empty_index()),
+        (_, Some("collect-peak")) => Some(crate::round4::oracle_collect_peak(a.get(1)?.parse().ok()?)),
+        (_, Some("size-after-failed-write")) => Some(crate::round4::oracle_size_after_failed_write()),
+        (_, Some("header-code-chunked")) => Some(crate::round4::oracle_header_code_chunked(a.get(1)?.parse().ok()?, a.get(2)?.parse().ok()?)),
+        (_, Some("long-part")) => Some(crate::round4::oracle_long_part(a.get(1)?.parse().ok()?, a.get(2)?.parse().ok()?)),
+        (_, Some("pairs-roundtrip")) => Some(crate_dbf::oracle_c08_roundtrip(a.get(1)?, a.get(2)?.parse().ok()?)),
+        (_, Some("reader-pairs-noshx")) => Some(crate_dbf::oracle_c15_pairs_noshx(a.get(1)?, a.get(2)?.parse().ok()?, a.get(3)?.parse().ok()?)),
         _ => crate_dbf::oracle_scenario_dbf(prop, a),
     }
 }
